@@ -55,11 +55,11 @@ def run(tier, acc):
     acc.assumptions = ["clvmr is the consensus evaluator", "locations are not compared between the hex and the source run",
                        "the hierarchical (-t) view is exercised through the same CldbRun rows (its frame bookkeeping is not modelled)"]
     n = 3 if tier == "quick" else 4
-    cfg = cc.write_cfg("MC_ClvmGen_cldb.cfg", n + 1 if tier == "quick" else n + 1, "stepper", "clean")
-    r = core.run_tlc("MC_ClvmGen", cfg, "C12_model", workers=14, timeout=3000, coverage=False, heap="16g")
+    cfg = cc.write_cfg("MC_CldbGen_cldb.cfg", n + 1 if tier == "quick" else n + 1, "stepper", "clean", extra="CldbCheck")
+    r = core.run_tlc("MC_CldbGen", cfg, "C12_model", workers=14, timeout=3000, coverage=False, heap="16g")
     if not r.ok:
         raise core.ToolError(f"Cldb model: {r.invariant_violated}\n{r.output[-2500:]}")
-    acc.add_tlc("MC_ClvmGen[Cldb]", r)
+    acc.add_tlc("MC_CldbGen", r)
     trace = os.path.join(core.BUILD, "C12_replay.ndjson")
     out = os.path.join(core.BUILD, "C12_replay.report.json")
     core.run_vh(["replay-cldb", "--in", r.out_path, "--trace", trace, "--out", out], timeout=3000)
